@@ -42,6 +42,9 @@ def _wr(oracle, tier="quick"):
                                                          "name": (i + j) % len(P.NAMES), "bpath": i % len(P.NAMES)}, "timeout": 600})
     for t in range(len(P.AUX_TYPES)):
         out.append({"fn": "w_aux", "consts": {"oracle": oracle, "t": t, "level": ("ir", "module")[t % 2]}, "timeout": 600})
+    if oracle == "roundtrip":
+        for t in (2, 3, 4):
+            out.append({"fn": "w_aux", "consts": {"oracle": oracle, "t": t, "level": ("module", "ir")[t % 2], "presave": 1}, "timeout": 600})
     return out
 
 
